@@ -53,8 +53,11 @@ func newLockWorld() *lockWorld {
 	lw.count = verif.Int("count", 0, 1<<62)
 	lw.last = verif.Time("last")
 	lw.locked = verif.Time("locked")
-	w.Store.Users = []*world.User{{PID: "u", Email: "u@x", AttemptCount: lw.count, LastAttempt: lw.last, Locked: lw.locked},
-		{PID: "other", Email: "o@x", AttemptCount: 2}}
+	u := world.NewUser("u", "u@x")
+	u.AttemptCount, u.LastAttempt, u.Locked = lw.count, lw.last, lw.locked
+	o := world.NewUser("other", "o@x")
+	o.AttemptCount = 2
+	w.Store.Users = []world.Record{u, o}
 	return lw
 }
 
